@@ -186,6 +186,9 @@ def run(ctx):
             rejected[msg] = rejected.get(msg, 0) + 1
             if r['status'] in ('panic', 'hang'):
                 viol.append({'why': 'crash on a literal-bearing program: %s' % r.get('msg'), 'program': srcs[pid]})
+            elif msg == 'Unterminated string':
+                # every literal of these programs is a well-formed C literal
+                viol.append({'why': 'a well-formed string literal is reported as unterminated', 'program': srcs[pid]})
             continue
         vars_ = {v['name']: v for v in r['vars']}
         stored = {}
